@@ -89,6 +89,24 @@ impl ProtocolState {
                     self.allocated_packet_ids@.contains_key(p) && self.allocated_packet_ids@[p] == k)
     }
 
+    // the two directions of W2 separately (session handling clears the table in one go and then unbinds operation by operation)
+    pub open spec fn alloc_dir1(&self) -> bool {
+        forall|p: u16| #[trigger] self.allocated_packet_ids@.contains_key(p) ==>
+            p != 0 && self.operations@.contains_key(self.allocated_packet_ids@[p])
+            && self.operations@[self.allocated_packet_ids@[p]].packet_id == Some(p)
+    }
+    pub open spec fn alloc_dir2_for(&self, k: u64) -> bool {
+        self.operations@[k].packet_id matches Some(p) ==> self.allocated_packet_ids@.contains_key(p) && self.allocated_packet_ids@[p] == k
+    }
+    // wf without "every bound id is in the allocation table"
+    pub open spec fn wf_x(&self) -> bool {
+        &&& self.next_packet_id >= 1 && self.next_operation_id >= 1
+        &&& self.wf_ops() && self.alloc_dir1() && self.wf_pending() && self.wf_slow_start()
+        &&& ((self.state == ProtocolStateType::Connected || self.state == ProtocolStateType::PendingDisconnect) ==> self.current_settings is Some)
+        &&& (self.state == ProtocolStateType::PendingConnack ==> self.connack_timeout_timepoint is Some)
+        &&& (self.state == ProtocolStateType::PendingDisconnect ==> self.current_operation is None)
+    }
+
     // W3
     pub open spec fn wf_pending(&self) -> bool {
         &&& forall|p: u16| #[trigger] self.pending_publish_operations@.contains_key(p) ==> {
